@@ -323,7 +323,7 @@ func isSubseq(small, big [][]byte) bool {
 var propC17 = hx.Register(hx.Prop[CaseC17]{ID: "C17", Gen: genC17, Check: checkC17})
 
 func c17Rule() {
-	hx.Rec("C17").SetRule("cases: histories of 1..30 calls (WritePacket with a generated well-formed packet: PUSI on/off, payload-less, af_len 0, short payload behind stuffing, full payload; Bytes; Packets; Reset) on one accumulator with a drawn predicate (done when >= k bytes, error when >= k bytes, never, always; k from {0,1,10,184,185,300,368,500,1000}). Oracle: a three-state reference model (starting/accumulating/done, byte buffer, packet list); after EVERY call Bytes() and Packets() are compared with the model, returned slices are scribbled on and the caller's packet is modified to detect aliasing, and after a Reset a fresh accumulator is driven in lockstep (differential). Non-trivial: the history contains a second unit start, a write after completion, a predicate error, or a Reset.",
+	hx.Rec("C17").SetRule("cases: histories of 1..30 calls (WritePacket with a generated well-formed packet: PUSI on/off, payload-less, af_len 0, short payload behind stuffing, full payload, or the previous packet again byte for byte; Bytes; Packets; Reset) on one accumulator with a drawn predicate (done when >= k bytes, error when >= k bytes, done and error at once when >= k bytes, never, always; k from {0,1,10,184,185,300,368,500,1000}). Oracle: a three-state reference model (starting/accumulating/done, byte buffer, packet list); after EVERY call Bytes() and Packets() are compared with the model, returned slices are scribbled on and the caller's packet is modified to detect aliasing, and after a Reset a fresh accumulator is driven in lockstep (differential). Non-trivial: the history contains a second unit start, a write after completion, a predicate error, or a Reset.",
 		"a payload-less packet that passed the unit-start gate may or may not appear in Packets(): the list must contain the contributing packets in order and nothing but packets submitted since the last unit start",
 		"only well-formed packets are written (malformed ones are C05's business)")
 }
